@@ -16,5 +16,6 @@ for c in $checks; do
   sig=$(echo "$out" | grep -ao "VIOLATION property=[^ ]* replay=[^ ]* sig=[^ ]*" | head -3 | tr '\n' ' ')
   echo "RESULT check=$c rc=$rc $(echo "$out" | grep -a "$c quick:" | tail -1) $sig"
 done
-# replays created by a mutant run are not regressions of the real tree
-for c in $checks; do git -C /verif clean -fdq replays/$c; done
+# scratch build directories of this run (the driver keeps scratch runs apart: build/<ID>-<tree>, work/<ID>-<tier>-<tree>)
+tag=$(echo $wt | sed 's/[^A-Za-z0-9]\+/_/g; s/^_//')
+rm -rf /verif/build/*-$tag* /verif/work/*-$tag*
